@@ -136,6 +136,8 @@ pub struct Ctx {
     pub known_seen: Mutex<BTreeMap<String, String>>,
     pub assumptions: Mutex<Vec<String>>,
     pub start: Instant,
+    /// max_shrink_iters for the next run_prop calls (expensive sub-checks lower it)
+    pub shrink_iters: std::sync::atomic::AtomicU32,
 }
 
 fn hash_value<T: Serialize>(v: &T) -> u64 {
@@ -230,6 +232,7 @@ impl Ctx {
             known_seen: Mutex::new(BTreeMap::new()),
             assumptions: Mutex::new(vec![]),
             start: Instant::now(),
+            shrink_iters: std::sync::atomic::AtomicU32::new(4096),
         }
     }
 
@@ -432,7 +435,7 @@ impl Ctx {
                         failure_persistence: None,
                         rng_seed: RngSeed::Fixed(seed),
                         rng_algorithm: RngAlgorithm::ChaCha,
-                        max_shrink_iters: 4096,
+                        max_shrink_iters: self.shrink_iters.load(Ordering::Relaxed),
                         max_global_rejects: 1 << 20,
                         verbose: 0,
                         ..Config::default()
